@@ -81,10 +81,13 @@ func (env *Env) setupM3() error {
 	st.rep = r
 	env.ext = st
 	if env.Prog.Cfg.Stack == "m3" {
+		// the scope talks to the real reporter through a recording tap
+		tap := &RecCachedCloser{RecCached{seam: seam{env}, inner: r}}
+		env.Cached = &tap.RecCached
 		opts := tally.ScopeOptions{
 			Tags:                   copyTags(env.Prog.Cfg.RootTags),
 			Prefix:                 env.Prog.Cfg.Prefix,
-			CachedReporter:         r,
+			CachedReporter:         tap,
 			OmitCardinalityMetrics: env.Prog.Cfg.OmitCard,
 			SanitizeOptions:        env.Prog.Cfg.Sanitize.Tally(),
 		}
